@@ -130,6 +130,11 @@ void builtin_with_target(vf::Ctx& c, vf::RunCfg<T> const& cfg, std::vector<std::
         if (j <= k0) { continue; }
         long double sw = 0, swe = 0;
         std::size_t total_calls = 0, nz = 0;
+        // the same combination carried out in T: when its intermediate results leave the range of T (1/variance of a
+        // subnormal variance, squares below the smallest normal number) the combination does not exist in T and the
+        // stop decision is not judged
+        T sw_t = T(), swe_t = T();
+        bool out_of_range = false;
         for (std::size_t i = 0; i != j; ++i)
         {
             auto const& r = full.results()[i];
@@ -139,9 +144,21 @@ void builtin_with_target(vf::Ctx& c, vf::RunCfg<T> const& cfg, std::vector<std::
             long double const var = r.variance();
             sw += 1.0L / var;
             swe += static_cast<long double>(r.value()) / var;
+            T const w_t = T(1) / r.variance();
+            sw_t += w_t;
+            swe_t += w_t * r.value();
+            if (!(r.variance() >= std::numeric_limits<T>::min()) || !std::isfinite(w_t)) { out_of_range = true; }
         }
+        if (nz != 0)
+        {
+            T const var_t = T(1) / sw_t, est_t = swe_t * var_t;
+            T const sq = est_t * est_t + static_cast<T>(total_calls - 1) * var_t;
+            if (!std::isfinite(sw_t) || !std::isfinite(swe_t) || !(var_t >= std::numeric_limits<T>::min()) || !(std::fabs(est_t) > T(0)) || !(est_t * est_t >= std::numeric_limits<T>::min())
+                || !std::isfinite(static_cast<T>(total_calls) * sq)) { out_of_range = true; }
+        }
+        if (out_of_range) { ambiguous = true; c.label("combination-outside-the-range-of-T-not-judged"); }
         long double rel;
-        if (nz == 0) { rel = std::numeric_limits<long double>::quiet_NaN(); }
+        if (nz == 0) { c.label("no-information-yet:must-go-on"); continue; } // "0 +- 0": the relative error is NaN, which is not <= target
         else
         {
             long double const E = swe / sw, S = 1.0L / std::sqrt(sw);
@@ -277,9 +294,17 @@ void run_t(vf::Ctx& c)
         for (auto& x : calls) { if (x < 4) { x = 4; } }
         T const target = static_cast<T>(std::pow(10.0L, -3.0L * t.unit()));
         std::size_t const k0 = n ? t.pick(std::min<std::size_t>(n, 3)) : 0;
-        c.desc << "builtin target=" << vf::show(target) << " k0=" << k0 << " calls=" << vf::show(calls) << ' ' << cfg.describe();
         bool judged = false;
         bool const long_campaign = cfg.kind == vf::PLAIN && !std::is_same<T, float>::value && t.pick(3) == 0;
+        // an integrand that vanishes on 90 % of the domain: the first short iterations return "0 +- 0", the relative error
+        // of the combination is NaN - that is not "not larger than the target", the run has to go on
+        if (!long_campaign && t.pick(4) == 1)
+        {
+            cfg.fn.family = 11;
+            for (std::size_t i = 0; i < calls.size() && i < 2; ++i) { calls[i] = 4 + calls[i] % 8; }
+            c.label("mostly-zero-integrand");
+        }
+        c.desc << "builtin target=" << vf::show(target) << " k0=" << k0 << " calls=" << vf::show(calls) << ' ' << cfg.describe();
         if (long_campaign)
         {
             c.desc << " after-5e9-calls";
